@@ -747,7 +747,22 @@ impl<Front: SocketHandler> ConnectionH1<Front> {
                     // of that body on the connection; it must not be parsed as
                     // the next request, so the connection cannot be kept.
                     let request_complete = stream.front.is_terminated();
-                    if stream.context.keep_alive_frontend && request_complete {
+                    // A backend response without Content-Length or chunked
+                    // framing (and `Connection: close`) is delimited by the end
+                    // of the connection: toward an HTTP/1.1 client the end of
+                    // this connection is the only delimiter too, so it cannot be
+                    // kept, or the next bytes written on it (e.g. the 408 of the
+                    // idle timeout) are read as part of this body. This is a
+                    // property of the HTTP/1.1 framing only: an HTTP/2 frontend
+                    // delimits the body with END_STREAM and keeps its connection.
+                    let close_delimited_response = stream.back.body_size == kawa::BodySize::Empty
+                        && !stream.context.keep_alive_backend
+                        && stream.context.method != Some(crate::Method::Head)
+                        && !matches!(stream.context.status, Some(100..=199 | 204 | 304));
+                    if stream.context.keep_alive_frontend
+                        && request_complete
+                        && !close_delimited_response
+                    {
                         self.timeout_container.reset();
                         if let StreamState::Linked(token) = old_state {
                             endpoint.end_stream(token, stream_id, context);
